@@ -155,9 +155,16 @@ def rule_ord(ctx) -> None:
                 unbuffered = False
 
         ORDER = ["NONE", "CREATED", "WRITTEN", "FLUSHED", "FSYNCED", "REPLACED"]
+        # `while <bytes left>: n = f.write(view); view = view[n:]`: leaving the loop through its condition means nothing is
+        # left to write (also for empty data) - the exit branch counts as the completed WRITE
+        write_loops = {id(st) for st in ast.walk(fn.node) if isinstance(st, ast.While)
+                       and any(isinstance(c, ast.Call) and isinstance(c.func, ast.Attribute) and c.func.attr == "write" for b in st.body for c in ast.walk(b))}
+        loop_exits = {n for n in cfg.nodes if n.kind == "branch" and n.label == "F" and n.stmt is not None and id(n.stmt) in write_loops}
 
         def step(n, s, lab, t):
             evs = ev.at(fn, n) if n.kind not in ("branch", "join") else []
+            if n in loop_exits and lab != "exc":
+                evs = list(evs) + ["WRITE"]
             if lab == "exc":
                 return [s]  # the raising statement did not complete
             for e in evs:
@@ -293,6 +300,15 @@ def rule_retry(ctx) -> None:
     fn = ctx.func(f"{ATOMIC}:atomic_replace")
     cfg = ctx.cfg(fn)
     reps = find_calls(ctx, fn, lambda c, nm: (dotted(c.func) or "") in ("os.replace", "os.rename"))
+    # the swap is the rename primitive itself: a mover with a copy fallback (shutil.move / copy / copyfile) rewrites the
+    # destination in place when the rename fails - exactly the contended case the retry loop exists for
+    movers = find_calls(ctx, fn, lambda c, nm: (dotted(c.func) or "").split(".")[0] == "shutil" or call_tail(c) in ("copy", "copy2", "copyfile", "copyfileobj", "move", "write_bytes", "write_text"))
+    for n, c in movers:
+        ctx.violation("C08.RETRY", ctx.okey(f"{fn.qual}/swap-is-the-rename-primitive"), fn.loc(c),
+                      f"`{src(c)[:50]}` can put the new content in place by copying (shutil.move falls back to copy2 + unlink on any OSError of the rename): the destination is truncated and "
+                      "rewritten in place, so a reader - or a second fault during the copy - sees a file that is neither the old nor the new content, and the contention errors never reach the retry loop")
+    if not reps and movers:
+        return
     ctx.floor("C08.RETRY", "os.replace in atomic_replace", len(reps), 1)
     for n, c in reps:
         # the enclosing loop must be a for over range(...): bounded
@@ -477,7 +493,27 @@ def _discovery_filter(ctx, fn, rule: str) -> None:
                   "a returned candidate can be a raw directory entry that never passed the '.json' filter")
 
 
+def rule_raw_writes(ctx) -> None:
+    """the temp file is written through an unbuffered handle; a raw write may store fewer bytes than asked without raising
+    (disk nearly full, size limit).  If the count is dropped the truncated temp file is fsynced and swapped in, and the writer
+    reports success: the destination then holds neither the old nor the new content."""
+    from .. import hazards
+    n_raw = 0
+    for mn in (ATOMIC, "clematis.engine.snapshot", "clematis.io.log"):
+        for fn in ctx.prog.module(mn).funcs.values():
+            n_raw += sum(1 for x in walk_no_defs(fn.node) if isinstance(x, ast.Call) and (dotted(x.func) or "") in ("open", "io.open")
+                         and any(k.arg == "buffering" and isinstance(k.value, ast.Constant) and k.value.value == 0 for k in x.keywords) and "w" in (const_str(x.args[1]) if len(x.args) > 1 else "") )
+            for o, w in hazards.raw_write_unchecked(ctx, fn):
+                ctx.violation("C08.ORD", ctx.okey(f"{fn.qual}/raw-write-completes"), fn.loc(w),
+                              f"`{src(w)[:40]}` writes through a handle opened with buffering=0 and drops the returned byte count: a short write (full disk, RLIMIT_FSIZE) leaves a truncated "
+                              "temp file that is then fsynced and replaced over the destination while the writer reports success")
+    ctx.floor("C08.ORD", "unbuffered write handles in the atomic writer", n_raw, 1)
+    ctx.holds("C08.ORD", "atomic-writers/raw-writes-complete", "clematis/io/atomic.py", f"{n_raw} unbuffered write handle(s): every write's byte count is consumed (loop until all written); "
+              + hazards.controls(ctx, "clematis.engine.health", ["io"]))
+
+
 def run(ctx) -> None:
+    rule_raw_writes(ctx)
     rule_own(ctx)
     rule_ord(ctx)
     rule_clean(ctx)
